@@ -197,6 +197,18 @@ impl Report {
         let e = self.required.entry(regime.to_string()).or_insert(0);
         *e = (*e).max(min);
     }
+    /// A hook site the workload is expected to reach at least `min` times. Unlike `require` this is
+    /// evidence, not a verdict: the tick lines are instrumentation inside the library's *current*
+    /// algorithms and routes, and a correct rewrite (another sampler, another factorisation route) has no
+    /// such branch. The driver lists the sites that stayed below expectation in the evidence file.
+    pub fn expect_site(&mut self, site: &str, min: u64) {
+        let key = format!("expected_hook_site.{}", site);
+        let cur = self.notes.get(&key).and_then(|x| x.as_f64()).unwrap_or(0.0);
+        self.notes.insert(key.clone(), json!(cur.max(min as f64)));
+        if !self.max_keys.iter().any(|x| x == &key) {
+            self.max_keys.push(key);
+        }
+    }
     pub fn assume(&mut self, s: &str) {
         if !self.assumptions.iter().any(|a| a == s) {
             self.assumptions.push(s.to_string());
